@@ -50,6 +50,7 @@ Section Refine.
   Variable V : variant.
   Variable R : registry.
   Variables c1 c2 : cleaner.
+  Variable strictext : bool.
   Variable refuse : bool.
   Hypothesis Hc : forall io n v, covered (c1 io n v) (c2 io n v).
 
@@ -64,7 +65,7 @@ Section Refine.
     apply covered_bind; [apply cov_check_slot|intros; apply IH].
   Qed.
 
-  Lemma cov_base_init : forall c ac io kw vr, covered (base_init V R c1 c ac io kw vr) (base_init V R c2 c ac io kw vr).
+  Lemma cov_base_init : forall c ac io kw vr, covered (base_init V R c1 strictext c ac io kw vr) (base_init V R c2 strictext c ac io kw vr).
   Proof.
     intros. unfold base_init.
     apply covered_bind; [apply covered_refl|intros cpm].
@@ -75,14 +76,14 @@ Section Refine.
     apply covered_bind; [apply cov_prop_loop|intros present]. apply covered_refl.
   Qed.
 
-  Lemma cov_construct0 : forall c ac io kw, covered (construct0 V R c1 c ac io kw) (construct0 V R c2 c ac io kw).
+  Lemma cov_construct0 : forall c ac io kw, covered (construct0 V R c1 strictext c ac io kw) (construct0 V R c2 strictext c ac io kw).
   Proof.
     intros. unfold construct0. cbv zeta.
     match goal with |- covered (if ?b then _ else _) _ => destruct b end; [apply covered_refl|].
     apply covered_seq; [apply cov_base_init|apply covered_refl].
   Qed.
 
-  Lemma cov_marking_pre : forall dec v20 kw, covered (marking_pre V R c1 dec v20 kw) (marking_pre V R c2 dec v20 kw).
+  Lemma cov_marking_pre : forall dec v20 kw, covered (marking_pre V R c1 strictext dec v20 kw) (marking_pre V R c2 strictext dec v20 kw).
   Proof.
     intros. unfold marking_pre.
     destruct (jlookup (us "definition_type") kw) as [dt|]; [|apply covered_refl].
@@ -95,7 +96,7 @@ Section Refine.
     apply covered_seq; [apply covered_refl|apply cov_construct0].
   Qed.
 
-  Lemma cov_construct : forall dec c ac io kw, covered (construct V R c1 dec c ac io kw) (construct V R c2 dec c ac io kw).
+  Lemma cov_construct : forall dec c ac io kw, covered (construct V R c1 strictext dec c ac io kw) (construct V R c2 strictext dec c ac io kw).
   Proof.
     intros. unfold construct.
     destruct (c_pre c) as [|p rest]; [apply cov_construct0|].
@@ -103,7 +104,7 @@ Section Refine.
   Qed.
 
   Lemma cov_dict_to_stix2 : forall dec d nonstr ac io version,
-    covered (dict_to_stix2 V R c1 refuse dec d nonstr ac io version) (dict_to_stix2 V R c2 refuse dec d nonstr ac io version).
+    covered (dict_to_stix2 V R c1 strictext refuse dec d nonstr ac io version) (dict_to_stix2 V R c2 strictext refuse dec d nonstr ac io version).
   Proof.
     intros. unfold dict_to_stix2.
     apply covered_bind; [apply covered_refl|intros has].
@@ -116,15 +117,15 @@ Section Refine.
     apply covered_seq; [apply covered_refl|]. apply covered_seq; [apply cov_construct|apply covered_refl].
   Qed.
 
-  Lemma cov_parse : forall dec x ac io version, covered (parse V R c1 refuse dec x ac io version) (parse V R c2 refuse dec x ac io version).
+  Lemma cov_parse : forall dec x ac io version, covered (parse V R c1 strictext refuse dec x ac io version) (parse V R c2 strictext refuse dec x ac io version).
   Proof. intros. unfold parse. apply covered_bind; [apply covered_refl|intros; apply cov_dict_to_stix2]. Qed.
 
   Lemma cov_parse_file : forall dec tr ac io version,
-    covered (parse_file V R c1 refuse dec tr ac io version) (parse_file V R c2 refuse dec tr ac io version).
+    covered (parse_file V R c1 strictext refuse dec tr ac io version) (parse_file V R c2 strictext refuse dec tr ac io version).
   Proof. intros. unfold parse_file. apply covered_bind; [apply covered_refl|intros; apply cov_dict_to_stix2]. Qed.
 
   Lemma cov_parse_observable : forall dec x vr ac io version,
-    covered (parse_observable V R c1 refuse dec x vr ac io version) (parse_observable V R c2 refuse dec x vr ac io version).
+    covered (parse_observable V R c1 strictext refuse dec x vr ac io version) (parse_observable V R c2 strictext refuse dec x vr ac io version).
   Proof.
     intros. unfold parse_observable.
     apply covered_bind; [apply covered_refl|intros d].
